@@ -1,4 +1,4 @@
-import RV.C04.OpLemmas3
+import RV.C04.ExistsLemmas
 /-
   C04 — the induction: on the proved fragment (BGP, lazy and non-lazy Join, Union, Filter and
   Extend with EXISTS-free expressions, Values) rdflib's top-down evaluation under pushed-in
@@ -60,22 +60,22 @@ theorem pushdown_fragment {D : Dataset} (hD : (D.named.map (·.1)).Nodup) : ∀ 
       (pushdown_fragment hD a hf.1 hs.1 (fun v hv => hws v (by simp [Alg.allVars, hv])) g μ0)
       (pushdown_fragment hD b hf.2 hs.2 (fun v hv => hws v (by simp [Alg.allVars, hv])) g μ0)
   | .filter e p vars noIso, hf, hs, hws, g, μ0 => by
-    simp only [Alg.inFragment, Bool.and_eq_true] at hf
+    simp only [Alg.inFragment] at hf
     simp only [Alg.safe, Bool.and_eq_true, Bool.not_eq_true'] at hs
-    obtain ⟨⟨⟨hps, _⟩, hni⟩, hsc⟩ := hs
+    obtain ⟨⟨⟨hps, hes⟩, hni⟩, hsc⟩ := hs
     subst hni
     have hwsp : ∀ v ∈ p.allVars, v < n := fun v hv => hws v (by simp [Alg.allVars, hv])
     simp only [Model.evalPart, Spec.eval, Bool.false_eq_true, if_false]
-    exact pushdown_filter (pushdown_fragment hD p hf.2 hps hwsp g μ0) hf.1 hsc
-      (fun μ hμ => spec_bounds p hf.2 hwsp g μ hμ)
+    exact pushdown_filter (pushdown_fragment hD p hf hps hwsp g μ0) (exprOK_of_safe e hes g) hsc
+      (fun μ hμ => spec_bounds p hf hwsp g μ hμ)
   | .extend p v e vars, hf, hs, hws, g, μ0 => by
-    simp only [Alg.inFragment, Bool.and_eq_true] at hf
+    simp only [Alg.inFragment] at hf
     simp only [Alg.safe, Bool.and_eq_true, Bool.not_eq_true', List.contains_eq_mem, decide_eq_false_iff_not] at hs
-    obtain ⟨⟨⟨⟨hps, _⟩, hvm⟩, _⟩, hsc⟩ := hs
+    obtain ⟨⟨⟨⟨hps, hes⟩, hvm⟩, _⟩, hsc⟩ := hs
     have hwsp : ∀ v ∈ p.allVars, v < n := fun v hv => hws v (by simp [Alg.allVars, hv])
     rw [evalPart_extend, specEval_extend D g Row.empty]
-    exact pushdown_extend (pushdown_fragment hD p hf.2 hps hwsp g μ0) hf.1 hsc
-      (fun μ hμ => spec_bounds p hf.2 hwsp g μ hμ) hvm
+    exact pushdown_extend (pushdown_fragment hD p hf hps hwsp g μ0) (exprOK_of_safe e hes g) hsc
+      (fun μ hμ => spec_bounds p hf hwsp g μ hμ) hvm
   | .values vars rows, _, _, _, g, μ0 => by
     simp only [Model.evalPart, Spec.eval]
     exact List.Perm.of_eq (pushdown_values μ0 vars rows)
@@ -87,12 +87,12 @@ theorem pushdown_fragment {D : Dataset} (hD : (D.named.map (·.1)).Nodup) : ∀ 
     | none => simp [Alg.safe] at hs
     | some vs =>
       simp only [Alg.safe, Bool.and_eq_true, Option.getD_some] at hs
-      obtain ⟨⟨⟨⟨has, hbs⟩, _⟩, hs1⟩, hs2⟩ := hs
+      obtain ⟨⟨⟨⟨has, hbs⟩, hes⟩, hs1⟩, hs2⟩ := hs
       simp only [Model.evalPart, Spec.eval, Option.getD_some]
       exact pushdown_leftjoin (XB := fun c => Model.evalPart D g c b)
-        (pushdown_fragment hD a hf.1.2 has hwsa g μ0)
-        (fun c => pushdown_fragment hD b hf.2 hbs hwsb g c) hf.1.1 hs1 hs2
-        (fun μ hμ => spec_bounds a hf.1.2 hwsa g μ hμ) (fun μ hμ => spec_bounds b hf.2 hwsb g μ hμ)
+        (pushdown_fragment hD a hf.1 has hwsa g μ0)
+        (fun c => pushdown_fragment hD b hf.2 hbs hwsb g c) (exprOK_of_safe e hes g) hs1 hs2
+        (fun μ hμ => spec_bounds a hf.1 hwsa g μ hμ) (fun μ hμ => spec_bounds b hf.2 hwsb g μ hμ)
   | .minus a b p1vars, hf, hs, hws, g, μ0 => by
     simp only [Alg.inFragment, Bool.and_eq_true] at hf
     simp only [Alg.safe, Bool.and_eq_true] at hs
